@@ -29,15 +29,17 @@ K = TypeVar("K", bound="ConfigValue")
 V = TypeVar("V", bound="ConfigValue")
 
 
+_UNESCAPES = {"\\\\": "\\", "\\n": "\n", "\\t": "\t"}
+
+
 def decode(value: AnyStr) -> str:
     result = (
         value.decode(errors="surrogateescape") if isinstance(value, bytes) else value
     )
 
-    for char in ("\\", "\n", "\t"):
-        result = result.replace(char.encode(encoding="unicode-escape").decode(), char)
-
-    return result
+    # Undo the escapes in a single left-to-right pass, so that an escaped
+    # backslash followed by "n" or "t" is not mistaken for a newline or tab.
+    return re.sub(r"\\[\\nt]", lambda m: _UNESCAPES[m.group()], result)
 
 
 def encode(value: AnyStr) -> str:
